@@ -4,7 +4,7 @@
    YVGen.ScopeCfg); side conditions are decided here by computation. *)
 From Coq Require Import List Arith Bool String ZArith NArith Lia.
 From YVGen Require Import Consts ScopeCfg.
-From YV Require Import Upvalues Cells UpvaluesProofs ScopeLang ScopeComp ScopeRun ScopeLangProofs.
+From YV Require Import Upvalues Cells UpvaluesProofs ScopeLang ScopeComp ScopeRun ScopeLangProofs ScopeSwap ScopeSim ScopeDefs2 ScopeStage.
 Import ListNotations.
 
 Definition upvalues_max := N.to_nat UPVALUES_MAX.
@@ -103,6 +103,36 @@ Theorem C06_compile_scope_refuted_unwind :
   exists p, eval_cells p <> run_m cfg_shipped_unwind p /\ eval_cells p = run_m cfg_fixed p.
 Proof. exact compile_scope_refuted_unwind. Qed.
 
+(* --- glue between compile_scope and upvalues_refine_cells, for EVERY function table (every program): the
+       machine over Upvalues.v computes what the same machine computes over the cell store (every slot a heap
+       cell, nothing ever closed), whenever that run never pops / truncates a captured slot --- *)
+Theorem C06_backend_swap : forall cf funs fuel,
+  flag (res_state (@Gen.run_loop bk_c cf funs fuel (Gen.m_start bk_c funs))) = false ->
+  Gen.run_funs bk_m cf fuel funs = Gen.run_funs bk_c cf fuel funs.
+Proof. exact backend_swap. Qed.
+
+(* --- compile_scope_correct, stage 1a: EVERY program of blocks (any nesting) / declarations / assignments /
+       print over literals, variables and + (locals, globals, shadowing; no closures), any fuel --- *)
+Theorem C06_compile_scope_correct_stage1a : forall cf p funs fuel st en,
+  forallb stmt1 p = true -> compile_scope cf p = Some funs ->
+  exec_list fuel p [] true s_empty = (st, en, CNorm) ->
+  exists n, forall k, Gen.run_funs bk_m cf (n + k) funs = eval_cells_fuel fuel p.
+Proof. exact compile_scope_correct_stage1a. Qed.
+
+(* --- compile_scope_correct, stage 1: EVERY program of blocks (any nesting) + closures over block locals, one
+       function level (fragment stmt3 of ScopeDefs2.v: script level var / assignment / print / expression
+       statement / block / `var f = || { body };`; bodies of assignments, prints, expression statements, return;
+       expressions of literals, variables, +, calls f()), any fuel: captured variables are shared by the declaring
+       scope and all closures, while the block is live and after it was left --- *)
+Theorem C06_compile_scope_correct_stage1 : forall cf p funs fuel st en,
+  forallb stmt3 p = true -> compile_scope cf p = Some funs ->
+  exec_list fuel p [] true s_empty = (st, en, CNorm) ->
+  exists n, forall k, Gen.run_funs bk_m cf (n + k) funs = eval_cells_fuel fuel p.
+Proof. exact compile_scope_correct_stage1. Qed.
+
+Print Assumptions C06_compile_scope_correct_stage1.
+Print Assumptions C06_backend_swap.
+Print Assumptions C06_compile_scope_correct_stage1a.
 Print Assumptions C06_side_shapes.
 Print Assumptions C06_side_consts.
 Print Assumptions C06_side_repaired.
